@@ -444,7 +444,7 @@ Section Sound.
               split; [reflexivity|]. simpl in Hwl.
               apply andb_true_iff in Hwl as [Hwl Hlast]. apply andb_true_iff in Hwl as [Hws _].
               split; [exact Hws|]. intro Hw. rewrite Hw in Hlast.
-              rewrite (copies_no_tail _ [] Hlast) in E. discriminate. }
+              rewrite (copies_no_tail (BCons s2 b2) [] Hlast) in E. discriminate. }
             assert (Hmb : fx = true \/ wl_block (BCons s2 b2) = true).
             { destruct Hm as [Hf|Hwl]; [left; exact Hf|right].
               simpl in Hwl. apply andb_true_iff in Hwl as [Hwl _]. apply andb_true_iff in Hwl as [_ Hwb]. exact Hwb. }
